@@ -24,7 +24,8 @@ CONSTANTS FullTimeline,  \* TRUE: Timeout and PeerClose at any point; FALSE: at 
 \* the target's script and reachability only matter once the stream can get as far as the redirect
 Relevant ==
   CASE Mode = "reader" -> case.script = "silent" /\ case.down = "up"
-    [] Mode = "relay"  -> CompleteFaithful(C, C.total) /\ (case.down # "up" => case.script = "silent")
+    [] Mode = "relay"  -> /\ CompleteFaithful(C, C.total) /\ (case.down # "up" => case.script = "silent")
+                          /\ ~(case.script = "silent" /\ case.down = "up")        \* that one is the reader mode's
     [] OTHER           -> /\ (case.down # "up" => case.script = "silent")
                           /\ (~CompleteFaithful(C, C.total) => case.script = "silent" /\ case.down = "up")
 
